@@ -541,7 +541,7 @@ def common_meta(ctx):
         "records are ENTRY/EXIT of user functions only (no LOST/EVENT, no kernel/perf/extern data, no arguments)",
         "nesting depth < hdr.max_stack <= 1024 (default -D), no -t/-F/-N/-T/-r options, one session, symbols resolve",
         "no symbol named exec*/setjmp/longjmp (their fix-ups are not modelled); fork/vfork/daemon are modelled",
-        "--tid selections keep the parent of every selected forked child (otherwise the child starts at depth 0, see report)",
+        "--tid selections keep the parent of every selected forked child (the other case is the known finding tid-child-without-parent, replayed by a dedicated witness)",
         "timestamps >= 1000 ns and < 2^63; well-formed = per-task non-decreasing times, balanced against inherited frames",
     ]
 
@@ -620,10 +620,48 @@ def verdict(ctx, items, res):
     ctx.extra["disagreements_checked"] = ctx.extra.get("disagreements_checked", 0) + len(res["mismatch"])
 
 
+# ------------------------------------------------------------------ known finding: --tid <forked child> alone
+KF_KEY = "tid-child-without-parent"
+KF_TEXT = ("`uftrace replay --tid <forked child>` without its parent shows the child's inherited calls at depth 0 instead "
+           "of the parent's depth at fork(), so --tid changes the indentation of the calls shown")
+
+
+def kf_case():
+    """the witness of C06_tid_child_only_refuted: parent main{a{fork}}, child leaves fork(), calls b, leaves a"""
+    return {"names": ["main", "a", "b", "fork"], "forks": [3], "max_stack": 1024, "illformed": False, "tasks": [
+        {"tid": 40, "parent": None, "recs": [[1000, E, 0, 0], [1100, E, 1, 1], [1200, E, 2, 3], [1300, X, 2, 3], [1400, X, 1, 1], [1500, X, 0, 0]]},
+        {"tid": 50, "parent": 0, "recs": [[1250, X, 2, 3], [1260, E, 2, 2], [1270, X, 2, 2], [1280, X, 1, 1]]}]}
+
+
+def known_witness(ctx, objdir):
+    """dedicated witness of the listed defect (the generators never select a child without its parent)"""
+    case = kf_case()
+    D = {"fold": True, "sel": None, "fields": ["duration", "tid"], "column": None, "newline": False}
+    v_child = dict(D, sel=[1])
+    obs = run_case(ctx, objdir, case, [D, v_child])
+    if len(obs) != 2:
+        return
+    full = [(l[0], l[2], l[3], l[4]) for l in obs[0][1][0] if l[1] == 1 and l[0] in "OLC"]
+    alone = [(l[0], l[2], l[3], l[4]) for l in obs[1][1][0] if l[0] in "OLC"]
+    still = full != alone
+    ctx.case(key=("known-finding", KF_KEY), tags=["known-finding:" + KF_KEY],
+             sample={"tasks": case["tasks"], "full_view_child_lines": full, "tid_child_only_lines": alone})
+    if still:
+        # the model describes the code as it is: it must reproduce both outputs
+        res = evaluate(ctx, [(case, [(v, (o[0], o[1])) for v, o in obs])], "known_finding")
+        if res is not None and res["mismatch"]:
+            ctx.violation("model and implementation disagree on the witness of the known finding %s" % KF_KEY,
+                          {"case": case, "variant": v_child, "observed": obs[1][1]}, False)
+    ctx.known_finding(KF_KEY, KF_TEXT, still,
+                      {"known_finding": KF_KEY, "case": case, "variant": v_child,
+                       "full_view_child_lines": full, "tid_child_only_lines": alone})
+
+
 def run(ctx):
     common_meta(ctx)
     objdir = setup(ctx)
     rng = ctx.rng
+    known_witness(ctx, objdir)
     cases = hand_cases()
     n = ctx.n(110, 1500)
     for k in range(n):
@@ -653,6 +691,9 @@ def run(ctx):
 def replay(ctx, obj):
     common_meta(ctx)
     objdir = setup(ctx)
+    if obj.get("known_finding") == KF_KEY:
+        known_witness(ctx, objdir)
+        return
     case = obj.get("case")
     if not case:
         ctx.log("replay file has no case; nothing to re-execute")
